@@ -99,7 +99,9 @@ class Z3Tr(object):
         vs = f.quantifier_vars()
         scope = {}
         for v in vs:
-            scope[v] = z3.FreshConst(self.sort(v.symbol_type()), "bv_" + v.symbol_name()[:8])
+            # deterministic name: alpha-equal inputs give structurally equal z3 terms (inner binders are
+            # abstracted first, so shadowing is handled by construction)
+            scope[v] = z3.Const("\x01bound!" + v.symbol_name(), self.sort(v.symbol_type()))
         self._bound.append(scope)
         saved = self.defined
         self.defined = []
